@@ -69,6 +69,7 @@ type TypeOpts struct {
 	NoBigFloat  bool
 	NoPointers  bool
 	OnlyNamed   bool
+	NoEmbed     bool   // no anonymously embedded structs
 	Salt        string // made part of struct field names so types are fresh (first-use cache paths)
 }
 
@@ -134,7 +135,45 @@ func RandStruct(r *rand.Rand, depth int, o TypeOpts) reflect.Type {
 		}
 		fields = append(fields, reflect.StructField{Name: name, Type: RandType(r, depth-1, o)})
 	}
+	if !o.NoEmbed && r.Intn(5) == 0 {
+		// a chain of 1-6 anonymously embedded structs (fields promoted into this struct); the innermost has 2-3 fields
+		ep := r.Perm(len(EmbNames))
+		next := 0
+		name := func() string {
+			next++
+			return EmbNames[ep[next-1]] + o.Salt
+		}
+		var inner []reflect.StructField
+		for i := 2 + r.Intn(2); i > 0; i-- {
+			inner = append(inner, reflect.StructField{Name: name(), Type: embLeaf(r, depth, o)})
+		}
+		t := reflect.StructOf(inner)
+		for level := r.Intn(6); level > 0; level-- {
+			w := []reflect.StructField{{Name: fmt.Sprintf("Emb%d%s", level, o.Salt), Type: t, Anonymous: true}}
+			if r.Intn(2) == 0 {
+				own := reflect.StructField{Name: name(), Type: embLeaf(r, depth, o)}
+				if r.Intn(2) == 0 {
+					w = append(w, own)
+				} else {
+					w = append([]reflect.StructField{own}, w...)
+				}
+			}
+			t = reflect.StructOf(w)
+		}
+		at := r.Intn(len(fields) + 1)
+		fields = append(fields[:at], append([]reflect.StructField{{Name: "Emb0" + o.Salt, Type: t, Anonymous: true}}, fields[at:]...)...)
+	}
 	return reflect.StructOf(fields)
+}
+
+// EmbNames: field names used inside embedded structs (disjoint from FieldNames, so promoted names never collide).
+var EmbNames = []string{"Lat", "Lon", "Place", "Geo", "Addr", "Owner", "Zip", "Tel", "Fax", "Web", "Ref", "Mode"}
+
+func embLeaf(r *rand.Rand, depth int, o TypeOpts) reflect.Type {
+	if depth > 1 && r.Intn(4) == 0 {
+		return RandType(r, 1, o)
+	}
+	return []reflect.Type{TInt, TInt64, TString, TFloat64, TBool, TUint16, TInt8}[r.Intn(7)]
 }
 
 // RandValue returns a random value of type t.
